@@ -693,6 +693,8 @@ func redactScalarValue(keyPath []string, v interface{}, isSearchStage bool, isSe
 		}
 	}
 	switch v.(type) {
+	case nil:
+		return v
 	case string:
 		str := v.(string)
 		if IsEmail(str) {
